@@ -44,8 +44,18 @@ func H_C15_key() {
 	if p+d+1 > 66 {
 		return
 	}
-	plugin := nondetStringN("plugin", p)
-	deviceID := nondetStringN("deviceID", d)
+	// short strings range over all 256 byte values; long ones over all 7-bit values (stated bound)
+	var plugin, deviceID string
+	if p <= 4 {
+		plugin = nondetStringN("plugin", p)
+	} else {
+		plugin = nondetASCII("plugin", p)
+	}
+	if d <= 4 {
+		deviceID = nondetStringN("deviceID", d)
+	} else {
+		deviceID = nondetASCII("deviceID", d)
+	}
 	key, err := AnnotationKey(plugin, deviceID)
 	name := vC15Name(plugin, deviceID)
 	want := p > 0 && d > 0 && len(name) <= 63 && vregex(vC15NameRe, name)
